@@ -927,6 +927,11 @@ impl std::io::Read for File {
 
 impl std::io::Write for File {
     fn write(&mut self, buf: &[u8]) -> Result<usize> {
+        if buf.is_empty() && self.writable {
+            // POSIX: a zero-length write has no effect (the offset does not
+            // move, not even with O_APPEND)
+            return Ok(0);
+        }
         let mut cursor = self.cursor.lock().unwrap();
         let offset = if self.append_mode {
             // Append mode: always write at end
